@@ -12,6 +12,7 @@
 package main
 
 import (
+	"archive/tar"
 	"context"
 	"flag"
 	"fmt"
@@ -22,7 +23,11 @@ import (
 	"strings"
 	"testing/fstest"
 
+	v1 "github.com/google/go-containerregistry/pkg/v1"
+	"github.com/google/go-containerregistry/pkg/v1/empty"
+	v1mutate "github.com/google/go-containerregistry/pkg/v1/mutate"
 	scalibr "github.com/google/osv-scalibr"
+	"github.com/google/osv-scalibr/artifact/image/layerscanning/image"
 	"github.com/google/osv-scalibr/detector"
 	dl "github.com/google/osv-scalibr/detector/list"
 	"github.com/google/osv-scalibr/extractor"
@@ -37,6 +42,7 @@ import (
 	"github.com/google/osv-scalibr/purl"
 
 	"verif/harness/hx"
+	"verif/harness/imgx"
 )
 
 // ---- fake plugins of the three kinds with arbitrary requirements
@@ -439,6 +445,8 @@ func scanRoots(shape string) []*scalibrfs.ScanRoot {
 		return []*scalibrfs.ScanRoot{virt()}
 	case "rv":
 		return []*scalibrfs.ScanRoot{real(), virt()}
+	case "c", "e": // a container image (e: one without layers): the configuration names no root, ScanContainer supplies the image's file system
+		return nil
 	}
 	panic("shape " + shape)
 }
@@ -482,7 +490,32 @@ func runPreRoots(t []string) string {
 	}
 	res := preTail(&scalibr.ScanConfig{FilesystemExtractors: fsP, StandaloneExtractors: stP, Detectors: dP, Capabilities: &c, ScanRoots: scanRoots(shape), PathsToExtract: paths})
 	c2 := c
-	sr := scalibr.New().Scan(context.Background(), &scalibr.ScanConfig{FilesystemExtractors: fsF, StandaloneExtractors: stF, Detectors: dF, Capabilities: &c2, ScanRoots: scanRoots(shape), PathsToExtract: paths})
+	cfg2 := &scalibr.ScanConfig{FilesystemExtractors: fsF, StandaloneExtractors: stF, Detectors: dF, Capabilities: &c2, ScanRoots: scanRoots(shape), PathsToExtract: paths}
+	var sr *scalibr.ScanResult
+	if shape == "c" || shape == "e" {
+		// the same pre-scan chain reached through ScanContainer (a one-layer image holding a.txt and d/b.txt)
+		img, err := v1.Image(empty.Image), error(nil)
+		if shape == "c" {
+			img, err = v1mutate.Append(img, v1mutate.Addendum{History: v1.History{CreatedBy: "cmd0"}, Layer: imgx.MkLayer([]imgx.TarEnt{
+				{Name: "a.txt", Typ: tar.TypeReg, Body: "x"}, {Name: "d", Typ: tar.TypeDir}, {Name: "d/b.txt", Typ: tar.TypeReg, Body: "y"}})})
+		}
+		if err != nil {
+			panic(err)
+		}
+		im, err := image.FromV1Image(img, image.DefaultConfig())
+		if err != nil {
+			return res + " scan=loaderr"
+		}
+		defer im.CleanUp()
+		if sr, err = scalibr.New().ScanContainer(context.Background(), im, cfg2); err != nil {
+			if strings.Contains(err.Error(), "no chain layers found") {
+				return res + " scan=nolayers"
+			}
+			return res + " scan=other"
+		}
+	} else {
+		sr = scalibr.New().Scan(context.Background(), cfg2)
+	}
 	scan := "ok"
 	if sr.Status.Status != plugin.ScanStatusSucceeded {
 		msg := sr.Status.FailureReason
@@ -780,9 +813,9 @@ func main() {
 	emit("uniq")
 	// scan-root shapes (both tiers): the filtered registry, the filtered defaults and EVERY plugin alone, for every capability
 	// tuple x {no root, a real directory, a virtual file system, both}: requirement validation and a real Scan
-	for _, sh := range []string{"n", "r", "v", "rv", "np", "vp", "rvp"} {
+	for _, sh := range []string{"n", "r", "v", "rv", "np", "vp", "rvp", "c", "cp", "e"} {
 		for _, c := range caps {
-			if strings.HasSuffix(sh, "p") { // with PathsToExtract: the registry and the defaults only
+			if strings.HasSuffix(sh, "p") || sh == "c" || sh == "e" { // with PathsToExtract: the registry and the defaults only
 				emit("prer " + sh + " 1 " + c + " " + hx.Hex("all") + " " + hx.Hex("all") + " " + hx.Hex("all"))
 				emit("prer " + sh + " 1 " + c + " " + hx.Hex("default") + " " + hx.Hex("default") + " " + hx.Hex("all"))
 				emit("prer " + sh + " 0 " + c + " " + hx.Hex("default") + " " + hx.Hex("default") + " " + hx.Hex("all"))
